@@ -15,8 +15,10 @@ from pyvc.report import HELD, VIOLATED, Ob
 
 
 def skeleton_bodies(max_stmts):
-    """bodies as nested lists over: 'op' (any straight-line instruction), 'call', 'ret' (early return), ('if', body)"""
-    atoms = ["op", "call", "ret"]
+    """bodies as nested lists over: 'op' (any straight-line instruction), 'call', 'ret' (early return), ('if', body),
+    'inl' (the body of an inlined callee whose name ends with this function's name, e.g. pre_update inlined into update:
+    a conditional early return 'j pre.<name>end' and the label 'pre.<name>end:', as compile_function lays inlined code out)"""
+    atoms = ["op", "call", "ret", "inl"]
 
     def gen(n, depth):
         if n == 0:
@@ -64,6 +66,14 @@ def build(name, nargs, body, returns_value, final_return, pushpop, qualified):
                 code.append(I("add", [1, 2], R("t", code_expr="r9")))
             elif s == "call":
                 code.append(I("jal", ["callee"]))
+            elif s == "inl":
+                counter[0] += 1
+                lb, il = f"lbelse{counter[0]}", f"pre.{label}"
+                code.append(I("ble", [1, 3, lb], indent=1))
+                code.append(I("j", [il + "end"], indent=1))
+                code.append(I(f"{lb}:"))
+                code.append(I("s", ["db", "Setting", 1], indent=1))
+                code.append(I(f"{il}end:"))
             elif s == "ret":
                 if returns_value:
                     code.append(I("push", [7]) if pushpop else I("put", ["db", 511, 7]))
@@ -198,7 +208,7 @@ def ra_obligations(tier, seed):
         if bad:
             break
     obs = []
-    bound = f"{n} callee skeletons: bodies of <= {4 if q else 6} statements over (instruction, call, early return, if-block), 0/2 arguments, with/without result, both conventions, plain and qualified names"
+    bound = f"{n} callee skeletons: bodies of <= {4 if q else 6} statements over (instruction, call, early return, if-block, inlined callee with a suffix-sharing name), 0/2 arguments, with/without result, both conventions, plain and qualified names"
     for oid, b in (("compile_pass.FunctionData.add_ra_instructions#return_address_and_frame_restored_on_every_path", bad),
                    ("compile_pass.FunctionData.add_ra_instructions#functions_without_calls_unchanged", unchanged_bad)):
         ob = Ob(oid, HELD if not b else VIOLATED, kind="bounded", backend="native", target="compile_pass.FunctionData.add_ra_instructions", bound=bound, time_s=time.time() - t0)
